@@ -1,3 +1,4 @@
+import Harper.Basic.Span
 /-!
 # L7 — the accept/flag decision of `SpellCheck::lint` over an abstract dictionary
 
@@ -54,5 +55,51 @@ def suggestions (f : Fns) (dict : List Entry) (fuzzy : List (List Char)) (capita
     | none => false            -- the real code `unwrap()`s here: a fuzzy result must be a word
   let top := kept.take 3
   if capitalise then top.map upperFirst else top
+
+/-! ## what `SpellCheck::lint` offers for one flagged word (w24)
+
+`spell_check.rs`, `cached_suggest_correct_spelling` + the part of `lint` after it:
+
+```
+let mut suggestions = Vec::new(); let mut dist = 2;
+while suggestions.is_empty() && dist < 5 { suggestions = suggest_correct_spelling(word, 100, dist, &dict)…; dist += 1; }
+suggestions.retain(|v| dict.get_word_metadata(v).unwrap().dialect.is_none_or(|d| d == self.dialect));
+…
+if possibilities.len() > 3 { possibilities.resize_with(3, || panic!()); }
+if let Some(mis_f) = word_chars.first() { if mis_f.is_uppercase() {
+    for sug_f in possibilities.iter_mut().filter_map(|w| w.first_mut()) { *sug_f = sug_f.to_uppercase().next().unwrap(); } } }
+```
+
+The three search results (`dist = 2, 3, 4`; ordered by `order_suggestions`) are data (`rounds`); everything the code does
+with them is `lintSuggestions` — the function op `sugg` of the driver runs. It goes through `suggestions` above. -/
+
+/-- `*sug_f = sug_f.to_uppercase().next().unwrap()` on `w.first_mut()` (an empty suggestion is skipped by `filter_map`);
+`up` = `c.to_uppercase().next().unwrap()` (never panics: `to_uppercase` yields at least one character) -/
+def capFirst (up : Char → Char) : List Char → List Char
+  | [] => []
+  | c :: cs => up c :: cs
+
+/-- the back-off loop: the first non-empty search result, nothing when all are empty; later searches are not looked at -/
+def backoff : List (List (List Char)) → List (List Char)
+  | [] => []
+  | r :: rs => if r.isEmpty then backoff rs else r
+
+/-- `suggestions` with the `unwrap()` of the `retain` closure as it is in the code: `retain` visits every candidate, a
+candidate `get_word_metadata` does not know panics (whatever the others are); otherwise `suggestions` -/
+def suggestionsE (f : Fns) (dict : List Entry) (fuzzy : List (List Char)) (capitalise : Bool)
+    (upperFirst : List Char → List Char) : Except Panic (List (List Char)) :=
+  if fuzzy.all (fun s => (lookup f dict s).isSome) then .ok (suggestions f dict fuzzy capitalise upperFirst)
+  else .error .unwrapNone
+
+/-- `mis_f.is_uppercase()` on `word_chars.first()` -/
+def startsUpper (isUpper : Char → Bool) : List Char → Bool
+  | c :: _ => isUpper c
+  | [] => false
+
+/-- **the suggestion list of the lint `SpellCheck` reports on the flagged word `w`** (or the panic): back-off, dialect filter,
+at most three, first letters upper-cased when `w` starts with an upper-case letter -/
+def lintSuggestions (f : Fns) (dict : List Entry) (isUpper : Char → Bool) (up : Char → Char) (w : List Char)
+    (rounds : List (List (List Char))) : Except Panic (List (List Char)) :=
+  suggestionsE f dict (backoff rounds) (startsUpper isUpper w) (capFirst up)
 
 end Harper.Spell
